@@ -883,3 +883,140 @@ def r_vbyte(db, rep):
                 problems.append("continuation threshold is %s, not 2^%d-1" % (sorted(et), w))
         for i, pr in enumerate(problems):
             rep.viol("%s<->%s#%d" % (en, dn, i), enc.loc, "%s / %s: %s: some values do not decode to what was encoded" % (en, dn, pr), enc.qn)
+
+
+# ---------------------------------------------------------------------------------------------------
+def _is_byte_load(f, n):
+    """expression denotes one byte of a string: subscript / deref of uchar*/char*, or a value explicitly cast to a byte type"""
+    s = n
+    while isinstance(s, dict) and s["k"] in ("ParenExpr", "ImplicitCastExpr"):
+        s = s.get("sub")
+    if not isinstance(s, dict):
+        return None
+    t = f.type(s)
+    if s["k"] in EXPLICIT_CASTS and t and t["bits"] == 8:
+        return t
+    if s["k"] in ("ArraySubscriptExpr",) or (s["k"] == "UnaryOperator" and s["op"] == "*"):
+        if t and t["bits"] == 8:
+            return t
+    return None
+
+
+@rule("R-BYTEORDER", 6, "string comparators order bytes as unsigned: a byte difference that steers a search is computed from unsigned "
+                        "bytes in int, never from `char` operands and never narrowed through a `char` variable")
+def r_byteorder(db, rep):
+    for f in sorted(db.funcs.values(), key=lambda x: (x.file, x.line)):
+        if f.file.startswith("libcds/") or not f.body:
+            continue
+        rt = f.types[f.raw["ret"]]
+        if rt["kind"] != "int":
+            continue
+        subs = []
+        for n in f.live_nodes():
+            if n["k"] == "BinaryOperator" and n["op"] == "-":
+                a, b = _is_byte_load(f, n["lhs"]), _is_byte_load(f, n["rhs"])
+                if a is not None and b is not None:
+                    subs.append((n, a, b))
+        if not subs:
+            continue
+        rep.visit(f)
+        for n, a, b in subs:
+            # is the difference returned (directly, or through a local)?
+            par = f.parent(n)
+            while par is not None and par["k"] in TRANSPARENT | EXPLICIT_CASTS:
+                par = f.parent(par)
+            via = None
+            returned = par is not None and par["k"] == "ReturnStmt"
+            if par is not None and par["k"] == "DeclStmt":
+                pass
+            # local initialised / assigned with the difference and returned
+            for d in f.live_nodes():
+                if d["k"] == "DeclStmt":
+                    for v in d["decls"]:
+                        if v.get("init") is not None and any(x is n for x in walk(v["init"])):
+                            via = v
+            if is_assignment(par or {}) and strip(par["rhs"]) is n:
+                via = {"d": access_path(f, par["lhs"])[1] if access_path(f, par["lhs"]) else None, "t": strip(par["lhs"]).get("t"), "n": strip(par["lhs"]).get("n")}
+            if not returned and via is None:
+                continue
+            rep.inst(f.nloc(n), "%s: byte difference %s" % (f.qn, "returned" if returned else "stored in " + str(via.get("n"))))
+            rep.ob()
+            for side, t in (("left", a), ("right", b)):
+                if t["kind"] == "int":      # plain / signed char
+                    rep.viol("%s#signed-byte-%s" % (f.qn, side), f.nloc(n),
+                             "%s compares string bytes as signed `char` (%s operand): bytes >= 0x80 sort before ASCII, so binary searches and "
+                             "bucket scans over such data go the wrong way (IDs are unsigned-byte ranks)" % (f.qn, side), f.qn)
+            if via is not None and "t" in via and via["t"] is not None:
+                vt = f.types[via["t"]]
+                rep.ob()
+                if vt["bits"] == 8:
+                    rep.viol("%s#difference-narrowed" % f.qn, f.nloc(n),
+                             "%s stores a byte difference in an 8-bit variable (%s): differences of 128 or more change sign" % (f.qn, via.get("n")), f.qn)
+
+
+@rule("R-SETFIELD", 2, "LogSequence::set_field replaces a field: every store into the data array has the form (old & ~mask) | new bits, "
+                       "never a bare OR (a field that already holds a value would keep its old bits)")
+def r_setfield(db, rep):
+    f = method(db, "LogSequence", "set_field")
+    rep.visit(f)
+    for lv, w in written_lvalues(f):
+        s = strip(lv)
+        if s["k"] != "ArraySubscriptExpr" or access_path(f, s["base"]) != ("param", 0):
+            continue
+        rep.inst(f.nloc(w), "LogSequence::set_field stores into data[%s]" % canon(SeqBuilder(db, f, "c", nosubst=True).sym(s["idx"])))
+        rep.ob()
+        ok = False
+        if w.get("op") == "=" and w.get("rhs") is not None:
+            r = strip(w["rhs"])
+            if r["k"] == "BinaryOperator" and r["op"] == "|":
+                for side in (r["lhs"], r["rhs"]):
+                    x = strip(side)
+                    if x["k"] == "BinaryOperator" and x["op"] == "&":
+                        for y in (x["lhs"], x["rhs"]):
+                            ys = strip(y)
+                            if ys["k"] == "ArraySubscriptExpr" and access_path(f, ys["base"]) == ("param", 0) and \
+                                    canon(SeqBuilder(db, f, "c", nosubst=True).sym(ys["idx"])) == canon(SeqBuilder(db, f, "c", nosubst=True).sym(s["idx"])):
+                                ok = True
+        if not ok:
+            rep.viol("LogSequence::set_field#store-%s" % canon(SeqBuilder(db, f, "c", nosubst=True).sym(s["idx"])), f.nloc(w),
+                     "LogSequence::set_field writes data[..] without first clearing the field's bits ((old & mask) | new): overwriting a position "
+                     "leaves stale bits of the previous value", f.qn)
+
+
+def shape(f, n, names=None):
+    """Structural signature of a function body: node kinds, operators, constants; variables numbered by first appearance."""
+    names = names if names is not None else {}
+    out = []
+    for x in walk(n):
+        k = x["k"]
+        if k in TRANSPARENT or k in EXPLICIT_CASTS:
+            continue
+        if k == "DeclRefExpr":
+            key = (x.get("dk"), x.get("d", x.get("n")))
+            out.append("v%d" % names.setdefault(key, len(names)))
+        elif k in ("BinaryOperator", "CompoundAssignOperator", "UnaryOperator"):
+            out.append(k[0] + x["op"])
+        elif k in ("IntegerLiteral", "CharacterLiteral"):
+            out.append(str(x.get("v")))
+        elif k == "DeclStmt":
+            out.append("D%d" % len(x["decls"]))
+        else:
+            out.append(k)
+    return out
+
+
+@rule("R-TWINS", 2, "the two copies of the variable-byte codec (VByte::encode/decode and encodeVB2/decodeVB2 in Utils.h) are structurally "
+                    "identical: a change made to one copy only (an extra loop bound, a different shift) is a divergence")
+def r_twins(db, rep):
+    for a, b in (("VByte::encode", "encodeVB2"), ("VByte::decode", "decodeVB2")):
+        fa, fb = db.fn(a), db.fn(b)
+        rep.visit(fa)
+        rep.visit(fb)
+        sa, sb_ = shape(fa, fa.body), shape(fb, fb.body)
+        rep.inst(fa.loc, "%s <-> %s (%s): %d / %d shape tokens" % (a, b, fb.loc, len(sa), len(sb_)))
+        rep.ob()
+        if sa != sb_:
+            i = next((i for i, (x, y) in enumerate(zip(sa, sb_)) if x != y), min(len(sa), len(sb_)))
+            rep.viol("%s<->%s#diverge" % (a, b), fa.loc,
+                     "%s and %s no longer have the same structure (first difference at token %d: %s vs %s): values encoded by one copy are not "
+                     "decoded alike by the other, or one copy lost a fix" % (a, b, i, sa[i:i + 4], sb_[i:i + 4]), fa.qn)
